@@ -2251,6 +2251,9 @@ def unify_gen_shape():
     reg = t[u0:u1]
     if "let l_norm = self.norm(l);\n        let r_norm = self.norm(r);\n        match (&l_norm, &r_norm) {" not in reg:
         raise Exception("anchor lost: unify no longer starts with norm(l); norm(r); match (&l_norm, &r_norm)")
+    # Model/Unify.lean::solveEqs reads the TypeEqual arm of Typer::solve as "unify, note progress, go on"
+    if not re.search(r"Constraint::TypeEqual\(l, r\) => \{\s*if self\.unify\(diagnostics, &l, &r\) \{\s*changed = true;\s*\}\s*\}", t):
+        raise Exception("anchor lost: the Constraint::TypeEqual arm of Typer::solve is no longer `if self.unify(..) { changed = true; }`")
     arms, acc = [], None
     for line in reg.split("\n"):
         if acc is None and re.match(r"^ {12}(\(|\| \(|_ =>)", line):
